@@ -8,6 +8,8 @@ for table text of formats that keep tables out of the full text.  Oracles return
 """
 from __future__ import annotations
 
+import re
+
 from . import tokens as T
 
 
@@ -33,6 +35,8 @@ class Expect:
         self.features: set[str] = set()
         self.decoration: list[str] = []     # literal strings allowed to appear (sheet names etc.)
         self.verbatim: str | None = None    # plain-text family: the decoded source text
+        self.literals: list[str] | None = None   # None = not claimed; else every non-token visible string the source holds: what is left of the
+                                                 # output once tokens, these strings and the decoration are taken out must hold no letter or digit
         self.between: list[tuple[str, str, str]] = []   # (token a, token b, text that must stand between them, modulo whitespace)
 
     # ---- recording
@@ -108,6 +112,15 @@ def check_text(exp: Expect, full_text: str) -> list[tuple[str, str]]:
             a, b = norm(full_text), norm(exp.verbatim)
             i = next((k for k in range(min(len(a), len(b))) if a[k] != b[k]), min(len(a), len(b)))
             out.append(("verbatim-differs", f"text differs from the decoded source at offset {i}: got {a[i:i + 12]!r}, source {b[i:i + 12]!r}"))
+    if exp.literals is not None:
+        # "no text that is neither in the source nor documented decoration": the source's visible text is tokens + declared literals
+        rest = T.TOKEN_RE.sub(" ", full_text)
+        for lit in sorted(set(exp.literals) | set(exp.decoration), key=len, reverse=True):
+            if lit:
+                rest = rest.replace(lit, " ")
+        words = re.findall(r"\w+", rest)
+        if words:
+            out.append(("alien-text", f"the output holds text that is neither source text nor documented decoration: {words[:6]!r}"))
     for a, b, must in exp.between:
         ia, ib = full_text.find(a), full_text.find(b)
         if ia >= 0 and ib > ia:
